@@ -36,6 +36,28 @@ func NewServer(env *univ.Env) *Server {
 	return s
 }
 
+// NewServerWithInterceptor adds a field interceptor that, under a plan with FaultInInterceptor,
+// raises the fault of the resolver it wraps itself (error returned / panic) once the resolver has
+// returned: the failure of a field interceptor at that field.
+func NewServerWithInterceptor(env *univ.Env) *Server {
+	s := NewServer(env)
+	s.Exec.AroundFields(func(ctx context.Context, next graphql.Resolver) (any, error) {
+		if !univ.InterceptorMode(ctx) {
+			return next(ctx)
+		}
+		pr := &univ.IcProbe{}
+		res, err := next(univ.WithIcProbe(ctx, pr))
+		switch pr.Fault {
+		case univ.FaultError:
+			return nil, &univ.UserError{Msg: univ.ErrText(pr.K)}
+		case univ.FaultPanic:
+			panic(univ.PanicText(pr.K))
+		}
+		return res, err
+	})
+	return s
+}
+
 type Payload struct {
 	Raw     json.RawMessage
 	Data    *sjson.Value // nil when the data member is absent
